@@ -6,6 +6,8 @@ CONSTANTS N = 4
  Siblings = FALSE
  MinHidden = 0
  Focus = "all"
+ Shape = "any"
+ Flaws = {"deps", "rev"}
  SliceK = 1
  SliceI = 0
 SPECIFICATION SpecQ
